@@ -20,7 +20,7 @@ reservation column exceeding 1; the thresholds set excess_resource_tolerance on 
 each round; (A4) exceptions are swallowed only on non-final rounds; (A5) OptimalityThresholder is a
 one-sided filter: a row is dropped only if, for some reference point, every compared column is
 strictly greater (|= of <= per column, &= across reference points, missing columns count as
-non-dominated); (A6) a memory is left untracked only under a data-derived bound <= 1 (sum over Einsums
+non-dominated); (A7) lookahead elimination drops a group only when none of its equivalent permutations matches any key of a later tensor-sharing Einsum; (A6) a memory is left untracked only under a data-derived bound <= 1 (sum over Einsums
 of per-Einsum maxima, or membership in always_below; max possible usage <= 1 at pmapping generation).
 """
 
@@ -210,7 +210,38 @@ def _a6(ctx):
     ctx.floor(R, 6)
 
 
+def _a7(ctx):
+    R = "C14-A7"
+    ctx.doc(R, "lookahead elimination drops a combined group only when NONE of its equivalent permutations matches ANY key of a later Einsum that shares tensors; failure to match at all raises")
+    jp = ctx.func(JP, "join_pmappings", R)
+    pm = parent_map(jp.node)
+    dels = [s for s in jp.stmts() if isinstance(s, ast.Delete) and norm(s.targets[0]) == "combined[k]"]
+    ctx.require(len(dels) == 1, R, f"lookahead deletion sites {len(dels)}")
+    g = pm[id(dels[0])]
+    ok = isinstance(g, ast.If) and norm(g.test) == "not any((p in next_keys for p in perms))"
+    ctx.check(ok, R, jp, g.test if isinstance(g, ast.If) else dels[0], f"a combined group is eliminated under `{norm(g.test) if isinstance(g, ast.If) else '?'}`: with anything stronger than "
+              "`not any(p in next_keys ...)` groups that still have a compatible continuation are dropped, changing the result", "eliminated only when no permutation matches any later key")
+    loop = g
+    while loop is not None and not (isinstance(loop, ast.For) and norm(loop.iter) == "pmgroups"):
+        loop = pm.get(id(loop))
+    ctx.require(loop is not None, R, "lookahead loop over the remaining Einsums")
+    skip = [s for s in loop.body if isinstance(s, ast.If) and norm(s.test) == "not next_right_tensors & cur_tensors" and isinstance(s.body[-1], ast.Continue)]
+    ctx.check(len(skip) == 1, R, jp, skip[0].test if skip else loop, "later Einsums that share no tensor with the joined ones are not skipped by the lookahead (their keys can never match, everything would be eliminated)",
+              "only later Einsums sharing tensors take part in the lookahead")
+    perms = [v for s in ast.walk(loop) if isinstance(s, ast.Assign) for t, v, _ in assigned_targets(s) if isinstance(t, ast.Name) and t.id == "perms"]
+    ok = len(perms) == 2 and norm(perms[0]) == "k.make_equivalent_compatibilities()" and "clear_dead_tensors(next_right_tensors)" in norm(perms[1]) and "clear_tile_patterns_and_reservation_indices()" in norm(perms[1])
+    ctx.check(ok, R, jp, perms[0] if perms else loop, "the lookahead does not compare all equivalent permutations, reduced to the tensors the later Einsum shares", "all equivalent permutations, reduced to shared tensors, are compared")
+    nk = [v for s in ast.walk(loop) if isinstance(s, ast.Assign) for t, v, _ in assigned_targets(s) if isinstance(t, ast.Name) and t.id == "next_keys"]
+    ok = len(nk) == 1 and "clear_dead_tensors(cur_tensors)" in norm(nk[0]) and "clear_tile_patterns_and_reservation_indices()" in norm(nk[0]) and "next_pmapping_groups.pmapping_groups" in norm(nk[0])
+    ctx.check(ok, R, jp, nk[0] if nk else loop, "the later Einsum's keys are not reduced the same way (tile patterns / reservation indices cleared, restricted to current tensors)", "later keys reduced the same way")
+    emp = [s for s in ast.walk(loop) if isinstance(s, ast.If) and norm(s.test) == "not combined"]
+    ok = bool(emp) and any(call_name(c) == "no_match_lookahead_error" for c in ast.walk(emp[0]) if isinstance(c, ast.Call))
+    ctx.check(ok, R, jp, emp[0].test if emp else loop, "when the lookahead eliminates everything no error is raised", "empty lookahead result raises")
+    ctx.floor(R, 5)
+
+
 def check(ctx):
+    _a7(ctx)
     _a1(ctx)
     _a2_a4(ctx)
     _a3(ctx)
@@ -229,6 +260,7 @@ VARIANTS = [
     {"kind": "F", "name": "ignore-by-max-not-sum", "rule": "C14-A6", "edits": [(JP, "            total_sizes[name] = total_sizes.get(name, 0) + size", "            total_sizes[name] = max(total_sizes.get(name, 0), size)")]},
     {"kind": "F", "name": "ignore-bound-2", "rule": "C14-A6", "edits": [(JP, "    ignore = oset(t for t, s in total_sizes.items() if s <= 1) | always_below", "    ignore = oset(t for t, s in total_sizes.items() if s <= 2) | always_below")]},
     {"kind": "F", "name": "dirty-result-returned-early", "rule": "C14-A2", "edits": [(JP, "            if i < len(thresholds) - 1:\n                filter_func = OptimalityThresholder(", "            if i == 0 and len(joined.data) == 1:\n                return joined\n            if i < len(thresholds) - 1:\n                filter_func = OptimalityThresholder(")]},
+    {"kind": "F", "name": "lookahead-not-all", "rule": "C14-A7", "edits": [(JP, "                    if not any(p in next_keys for p in perms):", "                    if not all(p in next_keys for p in perms):")]},
     {"kind": "S", "name": "insert-threshold-front", "edits": [(JP, "    resource_usage_thresholds = [\n        0.2,", "    resource_usage_thresholds = [\n        0.5,\n        0.2,")]},
     {"kind": "S", "name": "reorder-earlier-thresholds", "edits": [(JP, "        0.2,\n        0.1,\n", "        0.1,\n        0.2,\n")]},
 ]
